@@ -145,6 +145,14 @@ def run_case(case, ctx):
         from pyg_base import Calendar
         stc, rc = ctx.call(Calendar().drange, t0, t1, bump)
         ctx.check('calendar_drange_non_b', stc == 'ok' and list(rc) == exp, lambda: 'Calendar().drange(%s, %s, %r) = %s, drange gives %s' % (t0, t1, bump, rc[:4] if stc == 'ok' else rc, exp[:4]))
+    span = t1 - t0
+    if span.seconds == 0 and span.microseconds == 0 and span.days != 0 and abs(span.days) <= 4000 and (t0.year + span.days) % 4 == 0:
+        # an endpoint given as an offset from the other one (documented spelling: a date or a date bump): the same list
+        k_ = span.days
+        e1 = ctx.call(drange, t0, '%dd' % k_, bump)
+        e0 = ctx.call(drange, '%dd' % -k_, t1, bump)
+        ok = e1[0] == e0[0] == 'ok' and list(e1[1]) == res and list(e0[1]) == res
+        ctx.check('endpoint_as_offset', ok, lambda: "drange(%s, '%dd', %r) = %s.. ; drange('%dd', %s, %r) = %s.. ; with both endpoints as dates %s.." % (t0, k_, bump, _h(e1), -k_, t1, bump, _h(e0), res[:4]))
     if not fwd or case.get('big') or kind == 'compound':
         ctx.mark_nontrivial(case)
     ctx.cls('kind:' + kind)
